@@ -390,6 +390,25 @@ def with_moves(rng, cmds, p=0.08, kinds=("mv", "ma")):
     return out
 
 
+def alt_target(rng, h):
+    """header keys for the target of move assignments: an object of the same type built with other parameters"""
+    h = dict(h)
+    if h["fam"] == "coll":
+        # same ranges as coll_header: the constructor requires max_node_size < block_size / number of pools
+        if h["bd"] == "identity":
+            sizes = (8, 12, 16) if h["type"] == "small" else (8, 12, 16, 24, 32)
+        else:
+            sizes = (16, 32, 64) if h["type"] == "small" else (16, 32, 64, 100, 128)
+        h["tns"] = rng.choice([x for x in sizes if x != h["ns"]])
+        h["tbs"] = max(h["bs"], 4096) if h["bd"] == "identity" or h["type"] == "small" else h["bs"]
+    elif h["fam"] == "pool" and "nodes" in h:
+        h["tns"] = rng.choice([x for x in (4, 8, 16, 24, 48) if x != h["ns"]])
+        h["tnodes"] = rng.choice([2, 5, 9])
+    elif h["fam"] == "stack" and h["src"] in ("grow", "fixed"):
+        h["tbs"] = rng.choice([64, 200, 1024])
+    return h
+
+
 def move_everywhere(h, cmds, kind, hi):
     """one execution per position: the same history with a move inserted at position k"""
     res = []
